@@ -268,6 +268,54 @@ def replay_parallel(obl, model):
     return False, 'no case reproduced'
 
 
+def _e2e_worker(t):
+    seed, nt, npn, sort, wts = t
+    import numba
+    from abacusnbody.analysis import tsc
+    rng = np.random.default_rng(seed)
+    box, shape, N = 7.5, (24, 8, 6), 400
+    pos = rng.random((N, 3)) * box
+    out = rng.random(N) < 0.25
+    pos[out, 0] += rng.choice([-box, box], size=int(out.sum()))          # periodic images left and right of the domain
+    pos[0] = (box * (1 - 1e-9), 0.0, box / 2)
+    w = (rng.random(N) + 0.5) if wts else None
+    wrapped = pos % box
+    want = C06.ref_paint(wrapped, shape, box, weights=w)
+    rec = {}
+    real = tsc._tsc_parallel
+
+    def recorder(ppart, starts, dens, bx, weights=None, offset=0.0):
+        rec['ppart'], rec['starts'] = np.array(ppart, dtype=np.float64), np.array(starts)
+        return real(ppart, starts, dens, bx, weights=weights, offset=offset)
+    tsc._tsc_parallel = recorder
+    try:
+        d = np.zeros(shape, dtype=np.float64)
+        import warnings
+        with warnings.catch_warnings():
+            warnings.simplefilter('ignore')
+            tsc.tsc_parallel(pos.copy(), d, box, weights=None if w is None else w.copy(), nthread=nt, npartition=npn, sort=sort)
+    except Exception as ex:      # noqa
+        return f'tsc_parallel raised {ex!r}'
+    finally:
+        tsc._tsc_parallel = real
+        numba.set_num_threads(numba.config.NUMBA_NUM_THREADS)
+    if 'starts' in rec and len(rec['starts']) > 2:
+        st, pp = rec['starts'], rec['ppart']
+        nparts = len(st) - 1
+        width = box / nparts
+        for s_ in range(nparts):
+            x = pp[st[s_]:st[s_ + 1], 0]
+            lo, hi = s_ * width, (s_ + 1) * width
+            bad = (x < lo - 1e-9) | (x > hi + 1e-9)
+            if bad.any():
+                return (f'particle with x = {float(x[bad][0])!r} handed to the kernel in stripe {s_} = [{lo}, {hi}] '
+                        f'(nthread={nt}, npartition={nparts}): concurrent stripes may then share grid rows')
+    if not np.allclose(d, want, rtol=1e-9, atol=1e-9):
+        k = np.unravel_index(np.argmax(np.abs(d - want)), shape)
+        return f'grid differs from the direct spline evaluation at cell {tuple(int(x) for x in k)}: {d[k]} vs {want[k]} (total {d.sum()} vs {want.sum()})'
+    return None
+
+
 def check(run):
     run.level = 'proof'
     geometry_lemma(run)
@@ -281,6 +329,20 @@ def check(run):
             for coord in (0, 1):
                 run.prove(spec_tail(partitioned, w, coord), replay_config)
     run.discharge()
+    # (runs first: the fork pool must start before the parent initialises numba's threading layer)
+    # end-to-end: what tsc_parallel hands to the kernel (recorded) and the painted grid, for particles outside the domain (wrap),
+    # weights and sort=True/False: every particle handed over in stripe s lies in stripe s's interval (so the geometry lemma applies
+    # to what actually runs), and the grid equals the direct spline evaluation of the wrapped, weighted particles
+    tasks = [(run.seed + k, nt, npn, sort, wts) for k, (nt, npn, sort, wts) in enumerate(itertools.product((2, 3, 8), (None, 4), (False, True), (False, True)))]
+    res = run.pmap(_e2e_worker, tasks)
+    for t, why in zip(tasks, res):
+        if why:
+            run.bounded_violation('tsc_parallel differs from the serial deposit / hands particles to the wrong stripe',
+                                  dict(seed=t[0], nthread=t[1], npartition=t[2], sort=t[3], weights=t[4]), why)
+            break
+    run.add_bounded('real tsc_parallel end to end: recorded kernel hand-off + grid vs direct spline evaluation', len(tasks), len(tasks),
+                    '24 x 8 x 6 grid, 400 particles of which a quarter outside [0, box) (periodic images), nthread {2,3,8} x npartition {default, 4} x sort x weights',
+                    [dict(nthread=3, npartition=4, sort=True, weights=True)])
     # bounded: deterministic overlap check of every accepted small configuration
     n = 0
     bad = None
